@@ -477,11 +477,12 @@ def r_timer(prog, R):
         k = "regression start recorded only while none is recorded"
         unset = False
         for c3, p3 in mf.cond_facts_at(b, i):
-            cs = strip(c3)
-            if cs is not None and cs.get("k") == "call":
+            op3, l3, r3 = norm_cmp(c3, p3)
+            cs = strip(l3)
+            if cs is not None and cs.get("k") == "call" and op3 == "false":
                 full = v.call_by_id(cs["id"]) if cs.get("ref") else None
                 cn = full[2] if full else cs
-                if cn.get("callee") == "timeval_is_set" and not p3 and any(nd.get("k") == "mem" and nd["f"] == "unsupported_ts" for nd in walk(cn["args"][0])):
+                if cn.get("callee") == "timeval_is_set" and any(nd.get("k") == "mem" and nd["f"] == "unsupported_ts" for nd in walk(cn["args"][0])):
                     unset = True
         if unset:
             r.ok(k, v.loc(c["ln"]))
